@@ -819,9 +819,12 @@ def run(ctx):
             ctx.case([ck, slim(case)], sample=dict(check=ck, pool=pool, case=slim(case), result={k: v for k, v in r.items() if k in ("status", "nmix", "worst")}),
                      nontrivial=not trivial)
             if r["status"] == "mismatch":
-                if pool == "known-defect" or r.get("prefix_family"):
-                    report(ctx, ck, prefix_defect_case(), case_text(prefix_defect_case()), r, key=PREFIX_DEFECT_KEY) if pool != "known-defect" \
-                        else report(ctx, ck, case, texts[i], r, key=PREFIX_DEFECT_KEY)
+                fam_cols = [c for fam in PREFIX_FAMILIES for c in fam]
+                if pool == "known-defect" and any(("inventory %s " % c) in r.get("what", "") for c in fam_cols):
+                    report(ctx, ck, case, texts[i], r, key=PREFIX_DEFECT_KEY)
+                elif r.get("prefix_family"):
+                    # same defect met by a random column: report the minimal corpus case under the stable key
+                    report(ctx, ck, prefix_defect_case(), case_text(prefix_defect_case()), r, key=PREFIX_DEFECT_KEY)
                 else:
                     report(ctx, ck, case, texts[i], r)
             elif r["status"] in ("missing-rows", "no-nmix", "engine-crash"):
